@@ -118,4 +118,27 @@ theorem generated_handouts_cover_routes :
      "result_vs_table", "result_vs_handed_out", "handed_out_vs_table_after_commit", "get_context_state_after_commit",
      "context_result_vs_table"].all (fun r => Generated.handOuts.any (fun h => h.1 == r)) = true := by decide +kernel
 
+/-! ### known finding: a failure of the observers that send the reports is not rolled back
+`_transaction_manager` assigns `self.transaction = result` (observers serialise and send the reports) after
+`process_transaction` has applied the transaction. -/
+
+/-- the transaction manager with an observer that may raise while sending: the exception reaches the application
+    (`none` result), the tables are the committed ones -/
+def runWithObserver (t : Tables) (sc : Script) (observerRaises : Bool) : Tables × Bool :=
+  let r := runScript t sc
+  (r.1, observerRaises && r.2.2 == .committed)
+
+/-- the full statement "a failing commit leaves the MDIB as it was" including failures while the reports are sent -/
+def C03_atomic_with_observers_full : Prop :=
+  ∀ (t : Tables) (sc : Script), (runWithObserver t sc true).2 = true → (runWithObserver t sc true).1 = t
+
+/-- it is false of the code (known finding `commit-failed-in-report-serialisation-changed-mdib`; witness replayed on the
+    implementation by the harness): any committing script changes the version although the application sees an exception -/
+theorem C03_atomic_with_observers_full_fails : ¬ C03_atomic_with_observers_full := by
+  intro h
+  have := h { descrs := [⟨1, none, .metric, 0, 0, some 1⟩], states := [⟨1, 0, 0, .metric, 0⟩] }
+    (.s { kind := .metric, calls := [.get 1] }) (by decide)
+  revert this
+  decide
+
 end Sdc.C03
